@@ -29,6 +29,11 @@ type Text struct{ V string }
 
 func (t Text) MarshalText() ([]byte, error) { return []byte("T:" + t.V), nil }
 
+// Level is a named integer that renders itself as text
+type Level int
+
+func (l Level) MarshalText() ([]byte, error) { return []byte([]string{"low", "mid", "high"}[int(l)%3]), nil }
+
 type Leaf struct {
 	Id   int64
 	Name string
@@ -70,6 +75,8 @@ type Shape struct {
 	Ls   []*Leaf
 	VLs  []Leaf
 	Cs   []Color
+	Lvl  Level
+	PLvl *Level
 	Hid  string `graphql:"-"`
 	Ren  string `graphql:"renamed"`
 }
@@ -99,7 +106,7 @@ func buildFixture() *schemabuilder.Schema {
 	full := func() *Shape {
 		return &Shape{I: -5, I8: 7, U16: 65535, F32: 1.5, F64: math.Pi, B: true, S: "s", NS: "ns", NI: 3, C: 1, T: time.Date(2020, 1, 2, 3, 4, 5, 0, time.UTC), By: []byte{1, 2},
 			PS: p("ps"), PI: p(int32(4)), PF: p(2.5), PT: p(time.Date(2021, 1, 1, 0, 0, 0, 0, time.UTC)), Txt: Text{"a"}, PTxt: &Text{"b"}, Ints: []int64{1, 2}, Strs: []string{"x"},
-			PL: &Leaf{1, "l1"}, VL: Leaf{2, "l2"}, Ls: []*Leaf{{3, "l3"}, nil, {4, "l4"}}, VLs: []Leaf{{5, "l5"}}, Cs: []Color{1, 2}, Ren: "r"}
+			PL: &Leaf{1, "l1"}, VL: Leaf{2, "l2"}, Ls: []*Leaf{{3, "l3"}, nil, {4, "l4"}}, VLs: []Leaf{{5, "l5"}}, Cs: []Color{1, 2}, Ren: "r", Lvl: 2, PLvl: p(Level(1))}
 	}
 	sparse := func() *Shape { return &Shape{C: 2, T: time.Date(1999, 1, 1, 0, 0, 0, 0, time.UTC)} }
 	// one long-lived object reachable through several root fields (same pointer: the same source for cached fields)
@@ -139,6 +146,35 @@ func buildFixture() *schemabuilder.Schema {
 		out := map[batch.Index]*Leaf{}
 		for i, sh := range in {
 			out[i] = sh.PL
+		}
+		return out, nil
+	})
+	// batch fields that leave some objects without a result: a text-marshaler value, an enum, a named integer that
+	// renders as text
+	shape.BatchFieldFunc("batchedText", func(ctx context.Context, in map[batch.Index]*Shape) (map[batch.Index]Text, error) {
+		out := map[batch.Index]Text{}
+		for i, sh := range in {
+			if sh.PL != nil {
+				out[i] = Text{sh.S}
+			}
+		}
+		return out, nil
+	})
+	shape.BatchFieldFunc("batchedColor", func(ctx context.Context, in map[batch.Index]*Shape) (map[batch.Index]Color, error) {
+		out := map[batch.Index]Color{}
+		for i, sh := range in {
+			if sh.PL != nil {
+				out[i] = sh.C
+			}
+		}
+		return out, nil
+	})
+	shape.BatchFieldFunc("batchedLevel", func(ctx context.Context, in map[batch.Index]*Shape) (map[batch.Index]Level, error) {
+		out := map[batch.Index]Level{}
+		for i, sh := range in {
+			if sh.PL != nil {
+				out[i] = sh.Lvl
+			}
 		}
 		return out, nil
 	})
